@@ -286,6 +286,9 @@ pub fn for_property(prop: &str, tier: Tier) -> Vec<(SysCfg, RunOpts)> {
                 s.pairs(&counter_kinds(), &[4, 5], &foreach_plans(), &m, &d, &complete2());
             }
             s.triples(&main_kinds, &[3, 4], &menu(&["FE1", "EF2", "FO3", "DN", "FE2"]), &d, &bounded(b3));
+            // a wrapped iterator that yields again after None: the closures only see what a sequential use would yield
+            let nf = menu(&["FE2", "EF2", "FO2", "FE3", "EF1", "DC2", "DB2", "C2,N", "N,N"]);
+            s.pairs(&[K::IterNonFused], &l03, &menu(&["FE2", "EF2", "FO2", "FE3", "EF1"]), &nf, &d, &complete2());
         }
         "C13" => {
             let a = adaptor_kinds();
